@@ -2,7 +2,7 @@
 
 use crate::core::*;
 use crate::pipe::*;
-use crate::props::codemap::insert_at_start;
+use crate::props::codemap::{insert_at, splice_position};
 use crate::sweep::*;
 use serde_json::json;
 use std::collections::BTreeMap;
@@ -97,6 +97,7 @@ pub fn check_case(c: &Case) -> CaseResult {
     r.transitions = 2;
     let mut reference = a.clone();
     let mut shift_func: Option<u32> = None;
+    let mut shift_at = 0usize;
     match edit.as_str() {
         "gc" => {
             if gc(&mut m).is_err() {
@@ -120,13 +121,18 @@ pub fn check_case(c: &Case) -> CaseResult {
                 None => return r,
             }
         }
-        "insert" => {
+        "insert" | "insert-mid" | "insert-end" => {
             let fid = match m.funcs.iter_local().map(|(id, _)| id).next() {
                 Some(f) => f,
                 None => return r,
             };
-            m.funcs.get_mut(fid).kind.unwrap_local_mut().builder_mut().func_body().const_at(0, walrus::ir::Value::I32(0)).drop_at(1);
-            match insert_at_start(&c.wasm, &a, 0).and_then(|b| decode(&b).ok()) {
+            let pos = match splice_position(&a, &edit) {
+                Some(p) => p,
+                None => return r,
+            };
+            shift_at = pos;
+            m.funcs.get_mut(fid).kind.unwrap_local_mut().builder_mut().func_body().const_at(pos, walrus::ir::Value::I32(0)).drop_at(pos + 1);
+            match insert_at(&c.wasm, &a, 0, pos).and_then(|b| decode(&b).ok()) {
                 Some(x) => reference = x,
                 None => return r,
             }
@@ -173,7 +179,7 @@ pub fn check_case(c: &Case) -> CaseResult {
     let ords = wdwarf::ordinal_table(&a);
     let by_line: BTreeMap<u64, (u32, usize)> = ords.iter().map(|(k, v)| (*v, *k)).collect();
     let expected = |fi: u32, k: usize| -> Option<u64> {
-        let kk = if shift_func == Some(fi) { k + 2 } else { k };
+        let kk = if shift_func == Some(fi) && k >= shift_at { k + 2 } else { k };
         let corr = maps.bodies.get(&fi)?;
         let j = (*corr.op_map.get(kk)?)?;
         Some(b.funcs[corr.b as usize].body.as_ref()?.ops[j].1 - out_base)
@@ -446,6 +452,24 @@ pub fn cases(args: &Args) -> Vec<Case> {
                                 cfg: json!({"version": 4, "file_index": 0, "one_sequence": false, "low_pc": "body", "edit": edit, "range_form": range_form}),
                             });
                         }
+                    }
+                }
+            }
+        }
+    }
+    // instructions spliced into the middle / at the end of a parsed function (positional builder API)
+    for &n in &[1usize, 2, 3] {
+        for &s in &[8usize, 24, 130] {
+            for locals_mode in [0u8, 2] {
+                for range_form in ["offset", "addr"] {
+                    for edit in ["insert-mid", "insert-end"] {
+                        let wasm = wgen::families::build_leb_full(n, 0, s, false, false, 0, locals_mode);
+                        out.push(Case {
+                            family: "dwarf".into(),
+                            coords: format!("n={},big=0,size={},nops=false,locals={}", n, s, locals_mode),
+                            wasm,
+                            cfg: json!({"version": 4, "file_index": 0, "one_sequence": false, "low_pc": "body", "edit": edit, "range_form": range_form}),
+                        });
                     }
                 }
             }
